@@ -129,7 +129,8 @@ def main():
         name = f"{pid}_{kind}_{hashlib.sha1(json.dumps(payload, sort_keys=True).encode()).hexdigest()[:10]}.json"
         path = os.path.join(ROOT, "replays", name)
         with open(path, "w") as f:
-            json.dump({"property": pid, "kind": kind, **payload}, f, indent=1, ensure_ascii=False)
+            json.dump({"property": pid, "kind": kind, "seed": seed, "tier": tier,
+                       "replay": f"VERIF_SEED={seed} python3 check.py {pid} {tier}", **payload}, f, indent=1, ensure_ascii=False)
         return os.path.relpath(path, ROOT)
 
     # ---- 1. proofs -----------------------------------------------------------------------
@@ -189,8 +190,6 @@ def main():
             continue
         sdir = os.path.join(work, suite["name"] + ("-ext" if feats else ""))
         cmd = [exe, suite["name"], tier, str(seed), sdir] + suite.get("args", [])
-        if replay:
-            cmd += ["--replay", os.path.abspath(replay)]
         rc, out = run(cmd, cwd=HARN, timeout=suite.get("timeout", 3000),
                       env={"VERIF_DRIVER": os.path.join(LEAN, ".lake/build/bin/driver")})
         if rc != 0 or not os.path.exists(os.path.join(sdir, "report.json")):
